@@ -2,7 +2,7 @@
 # offline setup: syntax-check all specifications, run the exact-arithmetic self test and a smoke trace
 set -e
 cd "$(dirname "$0")/spec"
-for f in Exact LoopDist LoopTrace LoopSem LinRec LinRecFamily ExpLattice Dists BayesNet FuncMoment Session Worklist ProgSpace Pipeline Typer ExactTest; do
+for f in Exact LoopDist LoopTrace LoopSem LinRec LinRecFamily ExpLattice Dists BayesNet FuncMoment Session Worklist ProgSpace Pipeline Typer LineGrammar ExactTest; do
   java -cp /opt/veriftools/tla/tla2tools.jar:/opt/veriftools/tla/CommunityModules-deps.jar tla2sany.SANY $f.tla > /tmp/sany_$f.log 2>&1 || { cat /tmp/sany_$f.log; exit 1; }
   grep -q "Semantic errors\|Parsing or semantic analysis failed\|\*\*\* Errors" /tmp/sany_$f.log && { cat /tmp/sany_$f.log; exit 1; }
 done
